@@ -37,6 +37,10 @@ class GenOpts:
         self.hist_target_weight = 1   # how often history ids are repeated in the target pool
         self.descriptors = None       # restrict event descriptors (list of lists)
         self.loose = False           # C02/C19: target lists the validator has to judge
+        self.assign_weight = 3        # weight of <assign> among executable content (log 4, raise 3)
+        self.eventless_weight = 2     # weight of eventless transitions (event descriptor: 8)
+        self.deep_initial_weight = 2   # weight of a deep 'initial' attribute (first child 4, child attribute 3, <initial> 2)
+        self.eventless_targeted = False  # eventless transitions always have a target (a targetless one can only loop)
         self.__dict__.update(kw)
 
 
@@ -103,7 +107,7 @@ def exec_blocks(draw, o, vars_, state_ids, label, depth=0, maxn=3):
             kinds.append(('send', 2))
             kinds.append(('sendi', 1))
         if vars_ and o.data:
-            kinds.append(('assign', 3))
+            kinds.append(('assign', o.assign_weight))
         if depth < 1:
             kinds.append(('if', 2))
         if o.faults:
@@ -263,7 +267,7 @@ def charts(draw, o=None, datamodel='lua'):
         if o.initial_elem and s.kind != 'scxml':
             styles.append(('elem', 2))
         if o.deep_initial:
-            styles.append(('deep', 2))
+            styles.append(('deep', o.deep_initial_weight))
         style = weighted(draw, styles)
         if style == 'first':
             continue
@@ -305,7 +309,7 @@ def charts(draw, o=None, datamodel='lua'):
             t = Trans()
             ev_opts = [('desc', 8)]
             if o.eventless:
-                ev_opts.append(('none', 2))
+                ev_opts.append(('none', o.eventless_weight))
             if o.done_events:
                 ev_opts.append(('done', 1))
             ek = weighted(draw, ev_opts)
@@ -322,7 +326,8 @@ def charts(draw, o=None, datamodel='lua'):
                 # an unconditional eventless transition easily loops; guard most of them
                 if draw(st.integers(0, 3)) != 0:
                     t.cond = draw(bool_exprs(vars_, ids, 0, True, o.in_conds))
-            ntg = weighted(draw, [(1, 6), (2, 2 if o.multi_target else 0), (0, o.targetless_weight if o.targetless else 0)])
+            ntg = weighted(draw, [(1, 6), (2, 2 if o.multi_target else 0),
+                                  (0, o.targetless_weight if o.targetless and not (o.eventless_targeted and ek == 'none') else 0)])
             if ntg >= 1:
                 first = draw(st.sampled_from(all_target_ids))
                 t.targets = [first]
@@ -362,6 +367,81 @@ def conflict_profile():
     the conflict tables of the transpilers are exercised densely"""
     return GenOpts(max_states=7, max_depth=3, data=False, conds=False, descriptors=[['a'], ['a'], ['a'], ['b']], eventless=False,
                    done_events=False, late_binding=False, targetless_weight=4, history_weight=1)
+
+
+def dataflow_profile():
+    """small charts whose behaviour hinges on data: many <assign>s (also in targetless transitions) and eventless
+    transitions guarded by comparisons over the same one or two variables"""
+    return GenOpts(max_states=5, max_depth=2, history=False, send=False, done_events=False, late_binding=False, targetless_weight=5,
+                   in_conds=False, descriptors=[['a'], ['b'], ['a']], assign_weight=12, eventless_weight=6, initial_elem=False,
+                   deep_initial=False, faults=False, local_data=False, eventless_targeted=True)
+
+
+@st.composite
+def dataflow_charts(draw, datamodel='lua', events=('a', 'b'), internal='c'):
+    """charts built around data-dependent eventless transitions: event transitions (most of them targetless) assign small
+    constants / increments to x, eventless transitions guarded by a comparison over x lead elsewhere and usually move x on,
+    an internal event c is raised now and then. 2-4 states, flat, in a compound or in a parallel."""
+    n = draw(st.integers(2, 4))
+    states = [State('state', id="s%d" % i) for i in range(n)]
+    ids = [s.id for s in states]
+    lbl = [0]
+
+    def content(kind):
+        out = []
+        k = weighted(draw, [('set', 4), ('inc', 3), ('none', 1 if kind == 'event' else 3)])
+        if k == 'set':
+            out.append(Assign('x', ('c', draw(st.integers(0, 3)))))
+        elif k == 'inc':
+            out.append(Assign('x', ('+', ('v', 'x'), ('c', 1))))
+        if draw(st.integers(0, 3)) == 0:
+            out.append(Raise(internal))
+        if draw(st.integers(0, 2)) == 0:
+            lbl[0] += 1
+            out.append(Log("D%d" % lbl[0], ('v', 'x')))
+        return out
+    for s in states:
+        for ev in events:
+            if draw(st.integers(0, 3)) == 0:
+                continue
+            t = Trans(events=[ev])
+            if draw(st.integers(0, 4)) >= 2:
+                t.content = content('event')           # targetless
+            else:
+                t.targets = [draw(st.sampled_from(ids))]
+                t.content = content('event') if draw(st.booleans()) else []
+            s.transitions.append(t)
+        if draw(st.integers(0, 3)) != 0:
+            op = draw(st.sampled_from(['==', '>', '==', '>=']))
+            t = Trans(cond=(op, ('v', 'x'), ('c', draw(st.integers(1, 4)))), targets=[draw(st.sampled_from([i for i in ids if i != s.id]))])
+            t.content = content('eventless')
+            pos = draw(st.integers(0, len(s.transitions)))
+            s.transitions.insert(pos, t)
+        if draw(st.integers(0, 2)) == 0:
+            s.transitions.append(Trans(events=[internal], targets=[draw(st.sampled_from(ids))]))
+    shape = draw(st.sampled_from(['flat', 'flat', 'compound', 'parallel']))
+    root = State('scxml')
+    if shape == 'flat' or n < 3:
+        root.children = states
+    elif shape == 'compound':
+        outer = State('state', id="o0", children=states[:-1])
+        if draw(st.booleans()):
+            outer.transitions.append(Trans(events=[draw(st.sampled_from(list(events)))], content=content('event')))
+        root.children = [outer, states[-1]]
+    else:
+        r1 = State('state', id="r1", children=states[:n // 2])
+        r2 = State('state', id="r2", children=states[n // 2:])
+        par = State('parallel', id="o0", children=[r1, r2])
+        # targets must stay inside the own region (anything else leaves and re-enters the parallel state, which is fine too)
+        root.children = [par]
+    return Chart(root, datamodel, 'early', [('x', draw(st.integers(0, 1)))])
+
+
+def completion_profile():
+    """nested charts in which default completion is the subject: deep (also multi-target) initial attributes on most compound
+    states, <initial> elements, no data, little content; events a/b move between the compounds so that they are re-entered"""
+    return GenOpts(max_states=8, max_depth=4, data=False, conds=False, descriptors=[['a'], ['b'], ['a']], eventless=False, done_events=False,
+                   late_binding=False, history_weight=1, deep_initial_weight=12, send=False, faults=False)
 
 
 def history_profile():
